@@ -32,22 +32,17 @@ var traceRe = regexp.MustCompile(`(?s) stack trace:\n.*?\n\n\n?`)
 //	  global (0x..) | scope Name: 'x' (0x..) | <label>  <name> (0x..)   Scope.Show prints %p of every scope
 //	  already-saw Stack 0x.. in Show | already-saw Scope 0x..            Stack.Show / Scope.Show cycle marker
 //	  top of NewClosing at 0x..
-//	error text:
-//	  (*zygo.HashFieldDet)(0x..)   the unknown-field panic of SexpToGoStructs dumps JsonTagMap with %#v
+//	error text: none
 var ptrContextsVO = []*regexp.Regexp{
 	regexp.MustCompile(`(\(\*[A-Za-z0-9_.]+\)\()0x[0-9a-fA-F]{7,}(\))`),
 	regexp.MustCompile(`((?:global|scope Name: '[^'\n]*'|elem \d+ of [^\n]*?) \()0x[0-9a-fA-F]{7,}(\))`),
 	regexp.MustCompile(`(already-saw (?:Stack|Scope) )0x[0-9a-fA-F]{7,}()`),
 	regexp.MustCompile(`(top of NewClosing at )0x[0-9a-fA-F]{7,}()`),
 }
-var ptrContextsE = []*regexp.Regexp{
-	regexp.MustCompile(`(\(\*zygo\.HashFieldDet\)\()0x[0-9a-fA-F]{7,}(\))`),
-}
 
-// error messages of the code as it is that dump the offending value with %v / %#v (Go struct
-// dump, heap addresses included): from the listed phrase to the end of the message every address
-// is stripped.  A NEW message that dumps a value is not listed and keeps its addresses.
-var dumpingErrors = regexp.MustCompile(`We see \*?[\w.]+: '|but saw (?:type )?\*?[\w.]+/val=|(?:instead we have|but we had|we saw) \*?[\w.]+ / val = '?|could not be evaluated to integer; got j = '|not a function on top of datastack: '`)
+// error text: NO address is stripped.  (The messages that used to dump the offending value with
+// %v / %#v were repaired in /repo, commit 00a51a3; a heap address in an error text makes two runs differ.)
+var ptrContextsE = []*regexp.Regexp{}
 
 // norm strips goroutine ids and the allow-listed heap addresses.  The library appends the Go
 // stack trace of a recovered panic to the error text: that block (frames of the host program,
@@ -68,9 +63,7 @@ func norm(s string, field byte) string {
 		s = re.ReplaceAllString(s, "${1}0xPTR${2}")
 	}
 	if field == 'e' {
-		if loc := dumpingErrors.FindStringIndex(s); loc != nil {
-			s = s[:loc[1]] + ptrRe.ReplaceAllString(s[loc[1]:], "0xPTR")
-		}
+		// nothing: see ptrContextsE
 	} else if ptrWhole.MatchString(s) {
 		s = "0xPTR" // a pointer value printed by itself: (& x) prints its address
 	}
@@ -179,7 +172,9 @@ func evalCaptured2(src string) (Obs, string, string, []string) {
 					}
 					fmt.Fprintf(&sb, "%d: %s => %s\n", i, line, v)
 				case lib.OutError:
-					e := norm(r.Err.Error(), 'e')
+					// addresses left in an error text are written 0X.. so that the value-context
+					// rules applied to the whole sweep afterwards cannot strip them
+					e := strings.ReplaceAll(norm(r.Err.Error(), 'e'), "0x", "0X")
 					if len(e) > 400 {
 						e = e[:400] + "..."
 					}
